@@ -174,7 +174,7 @@ def undoLast : M (Dec × Nat) := do
   match s.stack with
   | [] => panic "decision_tracker.rs:undo_last:unwrap#1"
   | d :: rest =>
-    set { s with stack := rest, amap := s.amap.filter (fun e => e.1 != d.var), propIdx := rest.length }
+    set { s with stack := rest, amap := s.amap.filter (fun e => e.1 != d.var), propIdx := Nat.min s.propIdx rest.length }
     emit (.undo d.var)
     match rest with
     | [] => panic "decision_tracker.rs:undo_last:unwrap#2"
